@@ -306,8 +306,19 @@ def lp_models(draw, want=None):
         cons.append({"kind": "scalar", "lhs": L, "sense": sns, "rhs": b, "written": "direct",
                      "rows": [[[0.0 for _ in names], sns, float(b)]]})
 
+    def add_sign_row():
+        """the bare spelling `x >= 0` / `x <= 0` (a single variable against the literal 0)"""
+        nm = draw(st.sampled_from(names))
+        sns = ">=" if xhat[nm] >= 0 else "<="
+        forms.append("var>=0")
+        cons.append({"kind": "scalar", "lhs": _var_recipe(nm, env), "sense": sns, "rhs": 0, "written": "direct",
+                     "rows": [[[1.0 if k == nm else 0.0 for k in names], sns, 0.0]]})
+
     for _ in range(m):
-        kind = draw(st.sampled_from(["scalar", "scalar", "scalar", "scalar", "matvec", "vecbound", "bare", "zero"]))
+        kind = draw(st.sampled_from(["scalar", "scalar", "scalar", "scalar", "matvec", "vecbound", "bare", "zero", "sign"]))
+        if kind == "sign":
+            add_sign_row()
+            continue
         if kind == "zero":
             add_zero_row()
             continue
